@@ -220,8 +220,14 @@ def is_in_stdlib(name: ModuleName) -> bool:
     >>> is_stdlib_module("pytest.fixture")
     False
     """
+    # NOTE isort walks the search path, which may hold e.g. a symlink loop
+    try:
+        section = place_module(name)
+    except (OSError, RuntimeError):
+        return False
+
     # NOTE isort places `__future__` in its own section, it is an stdlib module
-    return place_module(name) in (sections.STDLIB, sections.FUTURE)
+    return section in (sections.STDLIB, sections.FUTURE)
 
 
 @cache
